@@ -675,6 +675,12 @@ fn read_calc_tokens(cur: &mut SourceCursor, song: &mut Song) -> Option<Vec<Token
 }
 
 fn read_calc(cur: &mut SourceCursor, song: &mut Song) -> Option<Token> {
+    read_calc_level(cur, song, LEX_OR_AND)
+}
+
+/// read an expression built from operators whose priority value is `max_priority` or smaller
+/// (a smaller value binds tighter); operators of equal priority associate to the left
+fn read_calc_level(cur: &mut SourceCursor, song: &mut Song, max_priority: isize) -> Option<Token> {
     // read left value
     let mut left_val = match read_value(cur, song) {
         Some(res) => res,
@@ -682,43 +688,26 @@ fn read_calc(cur: &mut SourceCursor, song: &mut Song) -> Option<Token> {
     };
     // read operator and right value
     while cur.has_next() {
+        let operator_index = cur.index;
         let (operator_ch, operator_priority) = match read_operator(cur) {
             Some(res) => res,
             None => break,
         };
-        let right_val_o = read_calc(cur, song);
+        if operator_priority > max_priority {
+            // a looser operator belongs to the enclosing expression
+            cur.index = operator_index;
+            break;
+        }
+        // the right operand only takes operators that bind tighter than this one
+        let right_val_o = read_calc_level(cur, song, operator_priority - 1);
         if right_val_o.is_none() {
             let msg = song.get_message(MessageKind::ErrorMissingValue);
             read_error(cur, song, msg);
         }
         let right_val = right_val_o.unwrap_or(Token::new_empty("ERROR", cur.line));
-        // replace left_val to CalcTree
-        if left_val.ttype != TokenType::CalcTree {
-            left_val = Token::new_tokens(TokenType::CalcTree, operator_priority, vec![left_val, right_val]);
-            left_val.tag =  operator_ch as isize;
-            continue;
-        }
-        // check priority
-        if left_val.value_i < operator_priority {
-            // (examle) 1 + 2 * 3 => [left] (1 + 2) [operator] * [right] 3
-            // => ((2 * 3) + 1)
-            let mut left_val_children = left_val.children.unwrap_or(vec![]);
-            let left_operator = left_val.tag;
-            let left_priority = left_val.value_i;
-            let val2 = left_val_children.pop().unwrap_or(Token::new_const(TokenType::ConstInt, 0, None, TokenValueType::INT));
-            let val1 = left_val_children.pop().unwrap_or(Token::new_const(TokenType::ConstInt, 0, None, TokenValueType::INT));
-            let val3 = right_val;
-            let mut new_left = Token::new_tokens(TokenType::CalcTree, 0, vec![val2, val3]);
-            new_left.tag = operator_ch as isize;
-            new_left.value_i = operator_priority;
-            left_val = Token::new_tokens(TokenType::CalcTree, 0, vec![val1, new_left]);
-            left_val.tag = left_operator;
-            left_val.value_i = left_priority;
-        } else {
-            left_val = Token::new_tokens(TokenType::CalcTree, 0, vec![left_val, right_val]);
-            left_val.tag = operator_ch as isize;
-            left_val.value_i = operator_priority;
-        }
+        // (example) 2 * 3 + 1 => ((2 * 3) + 1)
+        left_val = Token::new_tokens(TokenType::CalcTree, operator_priority, vec![left_val, right_val]);
+        left_val.tag = operator_ch as isize;
     }
     // println!("read_calc={:?}", left_val);
     Some(left_val)
